@@ -120,6 +120,21 @@ def scenarios():
         api, res = G.generate(fs, "", extra_dep_modules=(iam_policy_pb2,))
     except Exception as e:      # noqa
         return {"cases": 1, "failures": [{"what": "generation with snippets failed", "error": repr(e)[:300]}]}
+    # a service declared in a sub-package of the API (types in the root package): its rpcs need samples too
+    root = G.new_file("acme/deep/v1/common.proto", "acme.deep.v1")
+    G.add_message(root, "Req", [G.F("name", 1, G.T.TYPE_STRING)])
+    G.add_message(root, "Resp", [G.F("x", 1, G.T.TYPE_STRING)])
+    sub = G.new_file("acme/deep/v1/services/deep.proto", "acme.deep.v1.services", deps=G.STD_DEPS + ["acme/deep/v1/common.proto"])
+    dsvc = G.add_service(sub, "Deep", host="deep.googleapis.com")
+    G.add_method(dsvc, "Ping", ".acme.deep.v1.Req", ".acme.deep.v1.Resp", http=("get", "/v1/{name=deep/*}"))
+    n += 1
+    try:
+        _, dres = G.generate([root, sub], "")
+        dtags = sorted(t for f in dres.file if f.name.startswith("samples/generated_samples/") and f.name.endswith(".py") for t in re.findall(r"^# \[START ([^\]]+)\]$", f.content, re.M))
+        if dtags != ["deep_v1_generated_Deep_Ping_async", "deep_v1_generated_Deep_Ping_sync"]:
+            failures.append({"what": "samples of a service declared in a sub-package", "tags": dtags})
+    except Exception as e:      # noqa
+        failures.append({"what": "generation with snippets fails for an API whose service is declared in a sub-package", "error": repr(e)[:200], "known": "sub-package-service-snippets"})
     by_name = {f.name: f.content for f in res.file}
     samples = {k: v for k, v in by_name.items() if k.startswith("samples/generated_samples/") and k.endswith(".py")}
     meta_files = [k for k in by_name if k.startswith("samples/generated_samples/snippet_metadata") and k.endswith(".json")]
